@@ -52,6 +52,7 @@ class Check:
                     "rule": "", "axioms_seen": [], "stages": {}, "input_distribution": {}}
         self.assumptions = []
         self.theorems = []
+        self.notes = []
         os.makedirs(WORK, exist_ok=True)
         os.makedirs(os.path.join(ROOT, "evidence"), exist_ok=True)
         os.makedirs(os.path.join(ROOT, "replays"), exist_ok=True)
@@ -193,6 +194,74 @@ class Check:
             self.problems.append({"kind": "proof", "detail": "forbidden construct in proof sources", "names": hits[:10]})
         self.cov["samples"] += [{"obligation": t} for t in self.theorems[:3]]
         return all_ok
+
+    # ------------------------------------------------------------------ stage 2b: translator tie (second, independent tie)
+    FAMILY_SOURCES = {"TMsg": ["CCMsg", "PNMsgFile"], "TCC": ["CCScan"], "TPN": ["PNScan"], "TPoll": ["PollScan"]}
+
+    def translated(self, families):
+        """Regenerate the Lean translation of the source files behind `families` (tools/rs2lean.py) and check the
+        theorems of Midi.Props.<family>: the property's headline theorems restated for the translated code, via the
+        proved equivalence of the translation with the hand-written model.
+
+        This tie is IN ADDITION to the correspondence check.  When it holds, its theorems count as obligations of this
+        run.  When the source has left the translatable subset or the equivalence proof no longer checks, the tie is
+        reported as unavailable (evidence: coverage.translator_tie, a NOTE line) and the verdict rests on the other
+        tie alone: hand-written model + correspondence check, whose breakage IS a violation."""
+        rc, out, dt = sh([sys.executable, os.path.join(ROOT, "tools", "rs2lean.py")], env=dict(ENV, VERIF_REPO=REPO))
+        self.cov["stages"]["rs2lean_s"] = round(dt, 2)
+        try:
+            status = json.loads(out.strip().splitlines()[-1])
+        except Exception:
+            status = {}
+        tie = {"translated_modules": status, "families": {}}
+        self.cov["translator_tie"] = tie
+        for fam in families:
+            mod = "Midi.Props." + fam
+            srcs = self.FAMILY_SOURCES[fam]
+            bad = [m for m in srcs if not status.get(m, {}).get("ok")]
+            entry = {"module": mod, "sources": srcs}
+            tie["families"][fam] = entry
+            if bad:
+                entry["status"] = "unavailable"
+                entry["reason"] = "; ".join("%s: %s" % (m, status.get(m, {}).get("error", "translator crashed")) for m in bad)[:600]
+            else:
+                rc, o, dt = sh(["lake", "build", mod], cwd=LEAN, timeout=3600)
+                self.cov["stages"]["translated_build_s"] = round(self.cov["stages"].get("translated_build_s", 0) + dt, 2)
+                if rc != 0:
+                    errs = re.findall(r"error: (Midi/[\w/]+\.lean):(\d+):\d+: (.*)", o)
+                    entry["status"] = "unavailable"
+                    entry["reason"] = ("the translated code is no longer proved equivalent to the hand-written model: " +
+                                       "; ".join("%s:%s %s" % (f, l, m[:120]) for f, l, m in errs[:3]))[:800]
+                    entry["no_longer_checks"] = sorted({"%s (%s:%s)" % (theorem_at(os.path.join(LEAN, f), int(l)), f, l) for f, l, m in errs})[:10]
+                else:
+                    thms, badax = self.audit(mod)
+                    src = os.path.join(LEAN, mod.replace(".", "/") + ".lean")
+                    declared = declared_theorems(src)
+                    short = {t.split(".")[-1] for t in thms}
+                    missing = [d for d in declared if d not in short]
+                    hits = self.text_scan([src])
+                    if badax or missing or hits:
+                        entry["status"] = "unavailable"
+                        entry["reason"] = "axiom audit / text scan: %s %s %s" % (badax[:3], missing[:3], hits[:3])
+                    else:
+                        entry["status"] = "proved"
+                        entry["theorems"] = ["%s.%s" % (mod, d) for d in declared]
+                        self.cov["obligations"] += len(declared)
+                        self.cov["discharged"] += len(declared)
+                        self.theorems += entry["theorems"]
+                        if self.tier == "thorough":
+                            rc, o4, dt = sh(["lake", "env", "leanchecker", mod], cwd=LEAN, timeout=3600)
+                            entry["leanchecker"] = "passed" if rc == 0 else "failed"
+                            if rc != 0:
+                                entry["status"] = "unavailable"
+                                entry["reason"] = "leanchecker rejected " + mod
+                                self.cov["obligations"] -= len(declared)
+                                self.cov["discharged"] -= len(declared)
+            if entry["status"] != "proved":
+                self.notes.append("NOTE property=%s translator tie %s unavailable (%s); verdict rests on the hand-written model + correspondence check"
+                                  % (self.pid, fam, entry["reason"][:200]))
+        tie["status"] = "proved" if all(e["status"] == "proved" for e in tie["families"].values()) else "partly unavailable"
+        return tie
 
     # ------------------------------------------------------------------ stage 3: harness
     def cargo_build(self, features="std", profile=None):
@@ -351,12 +420,17 @@ class Check:
         cov = self.cov
         if cov["obligations"] == 0:
             cov["obligations"] = 1   # schema minimum; discharged stays 0
+        cov["distinct_rule"] = ("distinct_nontrivial: for exhaustive block enumerations the number of enumerated (implementation, input) pairs that denote a message "
+                                "(distinct by construction); for line transcripts the measured number of distinct (request, result) lines whose result is neither "
+                                "empty (all `-`) nor a bare acknowledgement - identical requests in different scanner states count once, so this undercounts")
         ev = {"property_id": self.pid, "tier": self.tier, "seed": self.seed, "level": "proof",
               "coverage": cov, "assumptions": self.assumptions, "wall_s": round(wall, 2), "violations": violations,
               "known_findings_printed": self.known_printed}
         if not cov["samples"]:
             cov["samples"] = [{"note": "no sample recorded"}]
         json.dump(ev, open(os.path.join(ROOT, "evidence", "%s.json" % self.pid), "w"), indent=1)
+        for l in self.notes:
+            print(l)
         for l in lines:
             print(l)
         print("%s %s tier=%s seed=%d obligations=%d discharged=%d evaluations=%d wall=%.1fs" % (
